@@ -1,3 +1,177 @@
 package main
 
-func runOracles(args []string) {}
+// oracles.go — direct property oracles on the real code: independent of the Coq model, written
+// against the property text.  They are the failing-input search of DESIGN.md §5.4.
+
+import (
+	"encoding/json"
+	"flag"
+	"fmt"
+	"os"
+	"sort"
+	"strings"
+	"sync"
+	"time"
+)
+
+type failure struct {
+	Oracle string         `json:"oracle"`
+	Type   string         `json:"type,omitempty"`
+	What   string         `json:"what"`
+	Input  map[string]any `json:"input"`
+}
+
+type known struct {
+	Property string            `json:"property"`
+	Status   string            `json:"status"` // open | fixed
+	Commit   string            `json:"commit,omitempty"`
+	What     string            `json:"what"`
+	Match    map[string]string `json:"match"` // oracle, type, contains
+}
+
+type report struct {
+	Property    string         `json:"property"`
+	Evaluations int            `json:"evaluations"`
+	Distinct    int            `json:"distinct"`
+	Rule        string         `json:"rule"`
+	Failures    []failure      `json:"failures"`
+	Known       []string       `json:"known"`
+	Samples     []string       `json:"samples"`
+	Stats       map[string]int `json:"stats"`
+
+	mu       sync.Mutex
+	seen     map[string]bool
+	knowns   []known
+	thorough bool
+}
+
+func (r *report) eval(class string, key string) {
+	r.mu.Lock()
+	defer r.mu.Unlock()
+	r.Evaluations++
+	r.Stats[class]++
+	if len(key) > 200 {
+		key = key[:200]
+	}
+	if !r.seen[key] {
+		r.seen[key] = true
+		r.Distinct++
+	}
+}
+
+func (r *report) sample(s string) {
+	r.mu.Lock()
+	defer r.mu.Unlock()
+	if len(r.Samples) < 8 {
+		if len(s) > 400 {
+			s = s[:400] + "..."
+		}
+		r.Samples = append(r.Samples, s)
+	}
+}
+
+// fail records a violation unless it matches an open known finding
+func (r *report) fail(f failure) {
+	r.mu.Lock()
+	defer r.mu.Unlock()
+	for _, k := range r.knowns {
+		if k.Property != r.Property || k.Status != "open" {
+			continue
+		}
+		if k.Match["oracle"] != "" && k.Match["oracle"] != f.Oracle {
+			continue
+		}
+		if k.Match["type"] != "" && k.Match["type"] != f.Type {
+			continue
+		}
+		if c := k.Match["contains"]; c != "" && !strings.Contains(f.What, c) {
+			continue
+		}
+		line := k.What
+		for _, x := range r.Known {
+			if x == line {
+				return
+			}
+		}
+		r.Known = append(r.Known, line)
+		return
+	}
+	if len(r.Failures) < 40 {
+		for k, v := range f.Input {
+			if s, ok := v.(string); ok && len(s) > 20000 {
+				f.Input[k] = s[:20000] + fmt.Sprintf("...(%d chars)", len(s))
+			}
+		}
+		r.Failures = append(r.Failures, f)
+	}
+}
+
+func (r *report) failed() bool {
+	r.mu.Lock()
+	defer r.mu.Unlock()
+	return len(r.Failures) >= 12
+}
+
+// watchdog: a single call that does not return within the limit is itself a violation (C09)
+var wdMu sync.Mutex
+var wdWhat string
+var wdInput map[string]any
+var wdStart time.Time
+
+func watch(what string, input map[string]any) {
+	wdMu.Lock()
+	wdWhat, wdInput, wdStart = what, input, time.Now()
+	wdMu.Unlock()
+}
+func unwatch() {
+	wdMu.Lock()
+	wdWhat = ""
+	wdMu.Unlock()
+}
+
+func runOracles(args []string) {
+	fs := flag.NewFlagSet("oracle", flag.ExitOnError)
+	prop := fs.String("prop", "", "property id")
+	seed := fs.Uint64("seed", 1, "seed")
+	tier := fs.String("tier", "quick", "quick|thorough")
+	out := fs.String("out", "oracle.json", "report file")
+	knownPath := fs.String("known", "", "known findings file")
+	fs.Parse(args)
+	rep := &report{Property: *prop, Stats: map[string]int{}, seen: map[string]bool{}, thorough: *tier == "thorough", Failures: []failure{}, Known: []string{}, Samples: []string{}}
+	if *knownPath != "" {
+		if b, err := os.ReadFile(*knownPath); err == nil {
+			json.Unmarshal(b, &rep.knowns)
+		}
+	}
+	write := func() {
+		rep.mu.Lock()
+		b, _ := json.MarshalIndent(rep, "", " ")
+		rep.mu.Unlock()
+		os.WriteFile(*out, b, 0o644)
+	}
+	// watchdog goroutine
+	go func() {
+		for {
+			time.Sleep(500 * time.Millisecond)
+			wdMu.Lock()
+			w, in, st := wdWhat, wdInput, wdStart
+			wdMu.Unlock()
+			if w != "" && time.Since(st) > 20*time.Second {
+				rep.fail(failure{Oracle: "deadline", What: "call did not return within 20s: " + w, Input: in})
+				write()
+				os.Exit(3)
+			}
+		}
+	}()
+	r := &rng{s: *seed*0x9E3779B97F4A7C15 + 12345}
+	fn, ok := oracleTable[*prop]
+	if !ok {
+		fmt.Fprintln(os.Stderr, "no oracle for", *prop)
+		os.Exit(2)
+	}
+	fn(rep, r)
+	sort.Slice(rep.Failures, func(i, j int) bool { return false })
+	write()
+}
+
+var oracleTable = map[string]func(*report, *rng){}
